@@ -10,8 +10,10 @@ import (
 	"os"
 	"os/exec"
 	"path/filepath"
+	"reflect"
 	"regexp"
 	"sort"
+	"strconv"
 	"strings"
 
 	"golang.org/x/tools/go/ssa"
@@ -369,6 +371,36 @@ func isTainted(v ssa.Value) bool {
 	})
 }
 
+// lenDerived: the value is built only from len()/cap() results, constants and + - of such
+// (never negative beyond what the operands allow is NOT claimed: only pure len/cap/const sums).
+func lenDerived(v ssa.Value) bool {
+	switch x := v.(type) {
+	case *ssa.Const:
+		k, ok := ConstInt(x)
+		return ok && k >= 0
+	case *ssa.Convert:
+		return lenDerived(x.X)
+	case *ssa.ChangeType:
+		return lenDerived(x.X)
+	case *ssa.Call:
+		if b, ok := x.Call.Value.(*ssa.Builtin); ok && (b.Name() == "len" || b.Name() == "cap") {
+			return true
+		}
+	case *ssa.BinOp:
+		if x.Op == token.ADD || x.Op == token.MUL {
+			return lenDerived(x.X) && lenDerived(x.Y)
+		}
+	case *ssa.Phi:
+		for _, e := range x.Edges {
+			if !lenDerived(e) {
+				return false
+			}
+		}
+		return true
+	}
+	return false
+}
+
 func isIntegerType(t types.Type) bool {
 	b, ok := t.Underlying().(*types.Basic)
 	return ok && b.Info()&types.IsInteger != 0
@@ -420,15 +452,15 @@ func (p *Prog) PanicSites(fns map[*ssa.Function]bool) ([]PanicSite, error) {
 				switch x := in.(type) {
 				case *ssa.Index:
 					if bce[p.posKey(x.Pos())] {
-						add("index", x.Pos(), indexGuard(x, x.X, x.Index))
+						add("index", x.Pos(), indexGuard(p, x, x.X, x.Index))
 					}
 				case *ssa.IndexAddr:
 					if bce[p.posKey(x.Pos())] {
-						add("index", x.Pos(), indexGuard(x, x.X, x.Index))
+						add("index", x.Pos(), indexGuard(p, x, x.X, x.Index))
 					}
 				case *ssa.Lookup:
 					if _, isMap := x.X.Type().Underlying().(*types.Map); !isMap && bce[p.posKey(x.Pos())] {
-						add("index", x.Pos(), indexGuard(x, x.X, x.Index))
+						add("index", x.Pos(), indexGuard(p, x, x.X, x.Index))
 					}
 				case *ssa.Slice:
 					if bce[p.posKey(x.Pos())] {
@@ -436,7 +468,11 @@ func (p *Prog) PanicSites(fns map[*ssa.Function]bool) ([]PanicSite, error) {
 					}
 				case *ssa.TypeAssert:
 					if !x.CommaOk {
-						add("assert", x.Pos(), assertGuard(x))
+						g := assertGuard(x)
+						if g == "" {
+							g = typedByWriters(p, x)
+						}
+						add("assert", x.Pos(), g)
 					}
 				case *ssa.BinOp:
 					if (x.Op == token.QUO || x.Op == token.REM) && isIntegerType(x.Type()) {
@@ -446,10 +482,14 @@ func (p *Prog) PanicSites(fns map[*ssa.Function]bool) ([]PanicSite, error) {
 					}
 				case *ssa.MakeSlice:
 					for _, sz := range []ssa.Value{x.Len, x.Cap} {
-						if _, isK := ConstInt(sz); !isK && isTainted(sz) {
-							add("size", x.Pos(), sizeGuard(x, sz))
+						if _, isK := ConstInt(sz); !isK && !lenDerived(sz) {
+							add("size", x.Pos(), sizeGuard(p, x, sz))
 							break
 						}
+					}
+				case *ssa.MakeChan:
+					if _, isK := ConstInt(x.Size); !isK && !lenDerived(x.Size) {
+						add("size", x.Pos(), sizeGuard(p, x, x.Size))
 					}
 				case *ssa.Panic:
 					if !IsSelectPanicBlock(b) {
@@ -501,6 +541,11 @@ func sameValue(a, b ssa.Value) bool {
 	a, b = Strip(a), Strip(b)
 	if a == b {
 		return true
+	}
+	if ca, ok := a.(*ssa.Const); ok {
+		if cb, ok := b.(*ssa.Const); ok {
+			return ca.Value != nil && cb.Value != nil && types.Identical(ca.Type(), cb.Type()) && ca.Value.ExactString() == cb.Value.ExactString()
+		}
 	}
 	ua, ok1 := a.(*ssa.UnOp)
 	ub, ok2 := b.(*ssa.UnOp)
@@ -578,14 +623,182 @@ func isSplitResult(v ssa.Value) bool {
 	return len(Roots(v, false)) > 0
 }
 
-func indexGuard(at ssa.Instruction, coll, idx ssa.Value) string {
+// capturedLenBound: coll is a variable captured by the closure containing `at`, never reassigned after
+// the closure was created; returns the length lower bound established where the closure was made.
+func capturedLenBound(at ssa.Instruction, coll ssa.Value) (int64, bool) {
+	var fv *ssa.FreeVar
+	switch x := Strip(coll).(type) {
+	case *ssa.FreeVar:
+		fv = x
+	case *ssa.UnOp:
+		if x.Op == token.MUL {
+			fv, _ = x.X.(*ssa.FreeVar)
+		}
+	}
+	if fv == nil {
+		return 0, false
+	}
+	cell, site := CellOf(fv)
+	if site == nil {
+		// captured by value: the bound value at the single MakeClosure site
+		var mcs []*ssa.MakeClosure
+		fn := fv.Parent()
+		idx := -1
+		for i, f := range fn.FreeVars {
+			if f == fv {
+				idx = i
+			}
+		}
+		if fn.Parent() != nil {
+			EachInstr(fn.Parent(), func(in ssa.Instruction) {
+				if mc, ok := in.(*ssa.MakeClosure); ok && mc.Fn == ssa.Value(fn) {
+					mcs = append(mcs, mc)
+				}
+			})
+		}
+		if len(mcs) != 1 || idx < 0 {
+			return 0, false
+		}
+		return lowerBoundOnLen(mcs[0], mcs[0].Bindings[idx])
+	}
+	if cell == nil {
+		return 0, false
+	}
+	// the cell is assigned only before the closure is created
+	for _, st := range StoresTo(cell) {
+		if st.Parent() != cell.Parent() || !InstrDominates(st, site) {
+			return 0, false
+		}
+	}
+	// facts at the creation site about a load of the cell
+	best, have := int64(0), false
+	for _, f := range CmpFactsAt(site) {
+		for _, g := range []Fact{f, {Op: flip(f.Op), X: f.Y, Y: f.X}} {
+			if g.Y == nil || !isLenCall(g.X) {
+				continue
+			}
+			ld, ok := lenArg(g.X).(*ssa.UnOp)
+			if !ok || ld.X != ssa.Value(cell) {
+				// parameter spilled into the cell: len(param) facts
+				okParam := false
+				for _, st := range StoresTo(cell) {
+					if sameValue(st.Val, lenArg(g.X)) {
+						okParam = true
+					}
+				}
+				if !okParam {
+					continue
+				}
+			}
+			k, isK := ConstInt(g.Y)
+			if !isK {
+				continue
+			}
+			n, okN := int64(0), false
+			switch g.Op {
+			case token.EQL, token.GEQ:
+				n, okN = k, true
+			case token.GTR:
+				n, okN = k+1, true
+			}
+			if okN && (!have || n > best) {
+				best, have = n, true
+			}
+		}
+	}
+	return best, have
+}
+
+// paramIndexWithinArray: idx is a parameter of an unexported function and every static call site
+// (through at most two forwarding levels) passes a constant within the array's length.
+func paramIndexWithinArray(p *Prog, idx ssa.Value, arrayLen int64, depth int) bool {
+	par, ok := idx.(*ssa.Parameter)
+	if !ok || depth > 2 {
+		return false
+	}
+	fn := par.Parent()
+	if fn.Object() == nil || fn.Object().Exported() {
+		return false
+	}
+	pi := -1
+	for i, q := range fn.Params {
+		if q == par {
+			pi = i
+		}
+	}
+	sites := p.StaticCallSites(fn)
+	if pi < 0 || len(sites) == 0 {
+		return false
+	}
+	// the function's value must not be taken
+	for f := range p.addressTaken() {
+		if f == fn {
+			return false
+		}
+	}
+	for _, site := range sites {
+		a := CC(site).Args[pi]
+		if k, isK := ConstInt(a); isK {
+			if k < 0 || k >= arrayLen {
+				return false
+			}
+			continue
+		}
+		if !paramIndexWithinArray(p, a, arrayLen, depth+1) {
+			return false
+		}
+	}
+	return true
+}
+
+func indexGuard(p *Prog, at ssa.Instruction, coll, idx ssa.Value) string {
+	// array indexed by a key parameter that every caller passes as an in-range constant
+	{
+		t := coll.Type()
+		if pt, ok := t.Underlying().(*types.Pointer); ok {
+			t = pt.Elem()
+		}
+		if at2, ok := t.Underlying().(*types.Array); ok && paramIndexWithinArray(p, idx, at2.Len(), 0) {
+			return fmt.Sprintf("index is a parameter that every call site passes as a constant within [0,%d)", at2.Len())
+		}
+	}
 	if k, isK := ConstInt(idx); isK {
+		if n, ok := capturedLenBound(at, coll); ok && n > k {
+			return fmt.Sprintf("captured slice, never reassigned, with len >= %d checked before the closure was created", n)
+		}
 		if k == 0 && isSplitResult(coll) {
 			return "element 0 of a strings.Split/SplitN result with a non-empty separator"
 		}
 		if n, ok := lowerBoundOnLen(at, coll); ok && n > k {
 			return fmt.Sprintf("dominated by len >= %d", n)
 		}
+		// element k of a (Find[All]StringSubmatch) match of a constant regular expression with >= k groups
+		if k >= 0 {
+			if n, ok := submatchGroups(coll); ok && int(k) <= n {
+				return fmt.Sprintf("submatch %d of a constant regular expression with %d groups", k, n)
+			}
+			// element 1 of strings.SplitN(s, sep, n>=2) under strings.Contains(s, sep)
+			if k == 1 {
+				for _, r := range Roots(coll, false) {
+					cl, _ := CallOfValue(r)
+					if cl == nil || !MatchCC(&cl.Call, Spec{"strings", "", "SplitN"}, Spec{"strings", "", "Split"}) {
+						continue
+					}
+					if len(cl.Call.Args) == 3 {
+						if n, isN := ConstInt(cl.Call.Args[2]); !isN || (n >= 0 && n < 2) {
+							continue
+						}
+					}
+					for _, bf := range BoolFactsAt(at) {
+						cc, _ := CallOfValue(bf.Subj)
+						if cc != nil && bf.Val && MatchCC(&cc.Call, Spec{"strings", "", "Contains"}) && sameValue(cc.Call.Args[0], cl.Call.Args[0]) && sameValue(cc.Call.Args[1], cl.Call.Args[1]) {
+							return "element 1 of strings.SplitN(s, sep, n) under strings.Contains(s, sep)"
+						}
+					}
+				}
+			}
+		}
+
 		return ""
 	}
 	// len(x)-1 under len(x) > 0
@@ -623,6 +836,14 @@ func indexGuard(at ssa.Instruction, coll, idx ssa.Value) string {
 	}
 	if lo && hi {
 		return "dominated by 0 <= index < len"
+	}
+	// index = rand.Intn(len(x)) / Int63n(len(x)): in [0, len) whenever the call returns
+	if cl, _ := CallOfValue(idx); cl != nil {
+		if f := CalleeObj(&cl.Call); f != nil && f.Pkg() != nil && f.Pkg().Path() == "math/rand" && (f.Name() == "Intn" || f.Name() == "Int63n" || f.Name() == "Int31n") {
+			if lenOf(cl.Call.Args[len(cl.Call.Args)-1], coll) {
+				return "index is rand.Intn(len(x))"
+			}
+		}
 	}
 	// for i := range x { y[i] } with y = make(_, len(x))
 	if ms := makeSliceOf(coll); ms != nil {
@@ -699,7 +920,127 @@ func isUnsignedOrNonNeg(v ssa.Value) bool {
 	return false
 }
 
+// edgeCmpFacts returns the comparison facts that hold when control passes pred -> succ.
+func edgeCmpFacts(pred, succ *ssa.BasicBlock) []Fact {
+	out := DomFacts(pred)
+	if len(pred.Instrs) > 0 && len(pred.Succs) == 2 && pred.Succs[0] != pred.Succs[1] {
+		if iff, ok := pred.Instrs[len(pred.Instrs)-1].(*ssa.If); ok {
+			out = append(out, CondFact(iff.Cond, pred.Succs[0] == succ))
+		}
+	}
+	return out
+}
+
+func factsImply(facts []Fact, pred func(f Fact) bool) bool {
+	for _, f := range facts {
+		if f.Y == nil {
+			continue
+		}
+		if pred(f) || pred(Fact{Op: flip(f.Op), X: f.Y, Y: f.X}) {
+			return true
+		}
+	}
+	return false
+}
+
+// isLenValue: v is len(coll) or a value that is only ever that.
+func isLenValue(v, coll ssa.Value) bool { return lenOf(v, coll) }
+
+// provenNonNeg: v >= 0 under the given facts; phis are resolved per incoming edge.
+func provenNonNeg(v ssa.Value, facts []Fact, depth int) bool {
+	if k, isK := ConstInt(v); isK {
+		return k >= 0
+	}
+	if isLenCall(v) {
+		return true
+	}
+	if factsImply(facts, func(f Fact) bool {
+		if f.X != v {
+			return false
+		}
+		k, isK := ConstInt(f.Y)
+		return isK && ((f.Op == token.GEQ && k >= 0) || (f.Op == token.GTR && k >= -1))
+	}) {
+		return true
+	}
+	if phi, ok := v.(*ssa.Phi); ok && depth < 4 {
+		for i, e := range phi.Edges {
+			if !provenNonNeg(e, edgeCmpFacts(phi.Block().Preds[i], phi.Block()), depth+1) {
+				return false
+			}
+		}
+		return true
+	}
+	return false
+}
+
+// provenLeLen: v <= len(coll) under the given facts.
+func provenLeLen(v, coll ssa.Value, facts []Fact, depth int) bool {
+	if isLenValue(v, coll) {
+		return true
+	}
+	if factsImply(facts, func(f Fact) bool {
+		return f.X == v && isLenValue(f.Y, coll) && (f.Op == token.LEQ || f.Op == token.LSS)
+	}) {
+		return true
+	}
+	if phi, ok := v.(*ssa.Phi); ok && depth < 4 {
+		for i, e := range phi.Edges {
+			if !provenLeLen(e, coll, edgeCmpFacts(phi.Block().Preds[i], phi.Block()), depth+1) {
+				return false
+			}
+		}
+		return true
+	}
+	return false
+}
+
+// loopCounterBelowLen: v is the counter of a loop `for ; v < len(coll); v++` (init >= 0, step +1):
+// it never exceeds len(coll), inside the loop or after it.
+func loopCounterBelowLen(v, coll ssa.Value) bool {
+	phi, ok := v.(*ssa.Phi)
+	if !ok {
+		return false
+	}
+	hasInit, hasInc := false, false
+	for _, e := range phi.Edges {
+		if k, isK := ConstInt(e); isK && k >= 0 {
+			hasInit = true
+			continue
+		}
+		if bo, ok := e.(*ssa.BinOp); ok && bo.Op == token.ADD && bo.X == ssa.Value(phi) {
+			if one, isOne := ConstInt(bo.Y); isOne && one == 1 {
+				// the increment happens only where phi < len(coll) held
+				if in, ok := ssa.Value(bo).(ssa.Instruction); ok {
+					if factsImply(CmpFactsAt(in), func(f Fact) bool { return f.X == ssa.Value(phi) && f.Op == token.LSS && isLenValue(f.Y, coll) }) {
+						hasInc = true
+						continue
+					}
+				}
+			}
+		}
+		return false
+	}
+	return hasInit && hasInc
+}
+
 func sliceGuard(x *ssa.Slice) string {
+	// clamp idiom: 0 <= low <= high <= len established by dominating comparisons and clamping assignments
+	{
+		facts := CmpFactsAt(x)
+		low, high := x.Low, x.High
+		okLow := low == nil || provenNonNeg(low, facts, 0)
+		okHigh := high == nil || provenLeLen(high, x.X, facts, 0) || loopCounterBelowLen(high, x.X)
+		okOrder := low == nil || high == nil || factsImply(facts, func(f Fact) bool {
+			return f.X == low && f.Y == high && (f.Op == token.LEQ || f.Op == token.LSS)
+		})
+		if high == nil && low != nil {
+			okOrder = provenLeLen(low, x.X, facts, 0) || loopCounterBelowLen(low, x.X)
+		}
+		if okLow && okHigh && okOrder && x.Max == nil && (low != nil || high != nil) {
+			return "0 <= low <= high <= len established by dominating comparisons / clamping assignments / the loop condition"
+		}
+	}
 	ok := func(b ssa.Value) bool {
 		if b == nil {
 			return true
@@ -760,6 +1101,128 @@ func sliceGuard(x *ssa.Slice) string {
 		}
 	}
 	return ""
+}
+
+// containerOf returns the struct field or package variable that holds the sync.Map / sync.Pool a call operates on.
+func containerOf(recv ssa.Value) (fld *types.Var, glob *ssa.Global) {
+	switch r := recv.(type) {
+	case *ssa.FieldAddr:
+		fv, _ := FieldOf(r)
+		return fv, nil
+	case *ssa.Global:
+		return nil, r
+	case *ssa.UnOp:
+		if r.Op == token.MUL {
+			if g, ok := r.X.(*ssa.Global); ok {
+				return nil, g
+			}
+			if fa, ok := r.X.(*ssa.FieldAddr); ok {
+				fv, _ := FieldOf(fa)
+				return fv, nil
+			}
+		}
+	}
+	return nil, nil
+}
+
+func sameContainer(recv ssa.Value, fld *types.Var, glob *ssa.Global) bool {
+	f2, g2 := containerOf(recv)
+	return (fld != nil && f2 == fld) || (glob != nil && g2 == glob)
+}
+
+// typedByWriters: x asserts the result of (*sync.Map).Load / (*sync.Pool).Get on a field or global whose every
+// writer in pandora (Store/LoadOrStore/Put calls, the pool's New function) supplies a value of the asserted type.
+func typedByWriters(p *Prog, x *ssa.TypeAssert) string {
+	var src *ssa.Call
+	for _, r := range Roots(x.X, false) {
+		if cl, _ := CallOfValue(r); cl != nil && MatchCC(&cl.Call, Spec{"sync", "Map", "Load"}, Spec{"sync", "Pool", "Get"}) {
+			src = cl
+		} else if types.Identical(r.Type(), x.AssertedType) {
+			// the freshly created value of the asserted type on the miss path (Roots looks through the boxing)
+		} else {
+			return ""
+		}
+	}
+	if src == nil {
+		return ""
+	}
+	fld, glob := containerOf(src.Call.Args[0])
+	if fld == nil && glob == nil {
+		return ""
+	}
+	isPool := MatchCC(&src.Call, Spec{"sync", "Pool", "Get"})
+	okType := func(v ssa.Value) bool {
+		mi, ok := v.(*ssa.MakeInterface)
+		return ok && types.Identical(mi.X.Type(), x.AssertedType)
+	}
+	writers := 0
+	for _, fn := range p.pandoraFuncs() {
+		bad := false
+		EachInstr(fn, func(in ssa.Instruction) {
+			cc := CC(in)
+			if cc == nil || len(cc.Args) == 0 {
+				// pool literal: New field store
+				if st, ok := in.(*ssa.Store); ok && isPool {
+					if fa, ok := st.Addr.(*ssa.FieldAddr); ok {
+						if fv, _ := FieldOf(fa); fv != nil && fv.Name() == "New" {
+							if pk, n := NamedOf(fa.X.Type()); pk == "sync" && n == "Pool" {
+								// is this literal the container? accept when the pool literal is stored to our field/global in this function
+								belongs := false
+								EachInstr(fn, func(y ssa.Instruction) {
+									if s2, ok := y.(*ssa.Store); ok {
+										if sameContainer(s2.Addr, fld, glob) || (fld != nil && func() bool { f3, _ := FieldOf(s2.Addr); return f3 == fld }()) {
+											belongs = true
+										}
+									}
+								})
+								if belongs {
+									for _, f := range p.FuncValues(st.Val) {
+										for _, b := range f.Blocks {
+											if r, ok := b.Instrs[len(b.Instrs)-1].(*ssa.Return); ok && len(r.Results) == 1 {
+												writers++
+												if !okType(r.Results[0]) {
+													bad = true
+												}
+											}
+										}
+									}
+								}
+							}
+						}
+					}
+				}
+				return
+			}
+			if !sameContainer(cc.Args[0], fld, glob) {
+				return
+			}
+			switch {
+			case MatchCC(cc, Spec{"sync", "Map", "Store"}, Spec{"sync", "Map", "LoadOrStore"}, Spec{"sync", "Map", "Swap"}):
+				writers++
+				if !okType(cc.Args[2]) {
+					bad = true
+				}
+			case MatchCC(cc, Spec{"sync", "Pool", "Put"}):
+				writers++
+				if !okType(cc.Args[1]) {
+					bad = true
+				}
+			}
+		})
+		if bad {
+			return ""
+		}
+	}
+	if writers == 0 {
+		return ""
+	}
+	name := ""
+	if fld != nil {
+		name = fld.Name()
+	} else {
+		name = glob.Name()
+	}
+	return fmt.Sprintf("every writer of %s (%d Store/Put/New sites in pandora) supplies a %s", name, writers, x.AssertedType)
 }
 
 func assertGuard(x *ssa.TypeAssert) string {
@@ -830,7 +1293,77 @@ func positiveGuard(at ssa.Instruction, y ssa.Value) string {
 	return ""
 }
 
-func sizeGuard(at ssa.Instruction, sz ssa.Value) string {
+// validatedMin: v is (a conversion of) a load of a struct field whose `validate` tag has min=k / gte=k with k >= 0.
+func validatedMin(v ssa.Value) (string, bool) {
+	fv, base := FieldOf(Strip(v))
+	if fv == nil {
+		if f, ok := Strip(v).(*ssa.Field); ok {
+			if st, ok := f.X.Type().Underlying().(*types.Struct); ok {
+				return tagMin(st, f.Field)
+			}
+		}
+		return "", false
+	}
+	st := derefStruct(base.Type())
+	if st == nil {
+		return "", false
+	}
+	for i := 0; i < st.NumFields(); i++ {
+		if st.Field(i) == fv {
+			return tagMin(st, i)
+		}
+	}
+	return "", false
+}
+
+func tagMin(st *types.Struct, i int) (string, bool) {
+	tag, ok := reflect.StructTag(st.Tag(i)).Lookup("validate")
+	if !ok {
+		return "", false
+	}
+	for _, part := range strings.Split(tag, ",") {
+		n, p, _ := strings.Cut(strings.TrimSpace(part), "=")
+		if n == "min" || n == "gte" {
+			if k, err := strconv.ParseFloat(p, 64); err == nil && k >= 0 {
+				return st.Field(i).Name() + " validate:" + part, true
+			}
+		}
+	}
+	return "", false
+}
+
+// paramNonNegAtCallers: v is a parameter and every static call site passes a value proven >= 0 there.
+func paramNonNegAtCallers(p *Prog, v ssa.Value) bool {
+	par, ok := Strip(v).(*ssa.Parameter)
+	if !ok {
+		return false
+	}
+	fn := par.Parent()
+	pi := -1
+	for i, q := range fn.Params {
+		if q == par {
+			pi = i
+		}
+	}
+	sites := p.StaticCallSites(fn)
+	if pi < 0 || len(sites) == 0 || p.addressTaken()[fn] {
+		return false
+	}
+	for _, site := range sites {
+		if !provenNonNeg(CC(site).Args[pi], CmpFactsAt(site), 0) {
+			return false
+		}
+	}
+	return true
+}
+
+func sizeGuard(p *Prog, at ssa.Instruction, sz ssa.Value) string {
+	if why, ok := validatedMin(sz); ok {
+		return "size is the configuration field " + why + " (rejected by Validate before the constructor runs)"
+	}
+	if !isTainted(sz) && paramNonNegAtCallers(p, sz) {
+		return "size is a parameter that every call site passes as a value proven >= 0"
+	}
 	lo, hi := false, false
 	for _, f := range CmpFactsAt(at) {
 		for _, g := range []Fact{f, {Op: flip(f.Op), X: f.Y, Y: f.X}} {
@@ -850,5 +1383,47 @@ func sizeGuard(at ssa.Instruction, sz ssa.Value) string {
 	if lo && hi {
 		return "dominated by a lower bound >= 0 and an upper bound"
 	}
+	if lo && !isTainted(sz) {
+		return "dominated by a lower bound >= 0 (not derived from parsed text)"
+	}
 	return ""
+}
+
+// submatchGroups: coll is one match (a []string) produced by FindStringSubmatch / an element of
+// FindAllStringSubmatch of a regexp compiled from a constant; returns the number of capture groups.
+func submatchGroups(coll ssa.Value) (int, bool) {
+	var call *ssa.Call
+	for _, r := range Roots(coll, true) {
+		v := r
+		// element of the [][]string result reached through a range / index
+		if u, ok := v.(*ssa.UnOp); ok && u.Op == token.MUL {
+			if ia, ok := u.X.(*ssa.IndexAddr); ok {
+				v = ia.X
+			}
+		}
+		for _, r2 := range Roots(v, false) {
+			if cl, _ := CallOfValue(r2); cl != nil && MatchCC(&cl.Call, Spec{"regexp", "Regexp", "FindAllStringSubmatch"}, Spec{"regexp", "Regexp", "FindStringSubmatch"}) {
+				call = cl
+			}
+		}
+	}
+	if call == nil {
+		return 0, false
+	}
+	for _, r := range Roots(call.Call.Args[0], false) {
+		cl, _ := CallOfValue(r)
+		if cl == nil || !MatchCC(&cl.Call, Spec{"regexp", "", "MustCompile"}, Spec{"regexp", "", "Compile"}) {
+			return 0, false
+		}
+		pat, ok := ConstString(cl.Call.Args[0])
+		if !ok {
+			return 0, false
+		}
+		re, err := regexp.Compile(pat)
+		if err != nil {
+			return 0, false
+		}
+		return re.NumSubexp(), true
+	}
+	return 0, false
 }
